@@ -17,8 +17,8 @@ prop("C02", "c02",
      "specificity, first rule in rule-set order whose condition holds, backtracking only if enabled for the failed "
      "expression). A case is non-trivial when >=2 expressions match the path or a failing condition forces a "
      "backtracking decision; distinct by (rule sets, method, path).",
-     [dict(run="^TestRepositoryMatchesModel$", quick=4000, thorough=384000, shards_thorough=8),
-      dict(run="^TestTreeMatchesModel$", quick=20000, thorough=1280000, shards_thorough=6),
+     [dict(run="^TestRepositoryMatchesModel$", quick=12000, thorough=384000, shards_thorough=8),
+      dict(run="^TestTreeMatchesModel$", quick=60000, thorough=1280000, shards_thorough=6),
       dict(run="^TestTreeExhaustiveSmall$", quick=1, thorough=1, shards_thorough=1)],
      ["glob/regex libraries and net/url parsing are trusted", "conditions are method conditions only (path_params are C03)"],
      level="Randomised generated search (rule sets x load orders x paths) against an independent reference matcher plus "
@@ -109,7 +109,7 @@ prop("C14", "c14",
      "a request failing the rule's own conditions in front of a less specific always-matching rule (effective backtracking). "
      "Non-trivial: a stage is inherited, the rule is expected to be rejected, or backtracking is set without default rule.",
      [dict(run="^TestStagewiseInheritanceExhaustive$", quick=1, thorough=1, shards_thorough=1),
-      dict(run="^TestOrderingsAndMalformedRules$", quick=4000, thorough=600000, shards_thorough=8)],
+      dict(run="^TestOrderingsAndMalformedRules$", quick=16000, thorough=600000, shards_thorough=8)],
      ["rule sets whose execute list is empty are rejected by rule-set validation before the factory and are not generated"],
      level="Complete enumeration of the stage-inheritance configuration space plus randomised search over orderings and "
            "malformed references, observed behaviourally through the trace of executed probe mechanisms on the assembled service.",
@@ -127,7 +127,7 @@ prop("C04", "c04",
      "the subject, 'no usable credentials' continues, anything else continues only with opt-in. Compared with the subject id "
      "echoed by a header finalizer / the failure status of the decision service. Non-trivial: chain length >= 2 and the "
      "first authenticator does not succeed; distinct by (types, flags, credential classes).",
-     [dict(run="^TestFallbackOnlyOnMissingCredentialsOrOptIn$", quick=6000, thorough=240000, shards_thorough=10)],
+     [dict(run="^TestFallbackOnlyOnMissingCredentialsOrOptIn$", quick=8000, thorough=240000, shards_thorough=10)],
      ["a bearer token that is not in JWT format is 'no usable credential' for the jwt authenticator (documented)",
       "a rejecting identity endpoint (401) surfaces as communication error for the generic authenticator: no fallback without opt-in either way"],
      level="Randomised generated search over authenticator chains x credential classes on the assembled decision service "
@@ -172,8 +172,8 @@ prop("C12", "c12",
      "WWW-Authenticate naming the realm; (3) the three entry points agree on status and Location; (4) body empty unless "
      "verbose, otherwise its content type is one of the supported types the Accept header admits with maximal quality and the "
      "body parses as that type. Non-trivial: depth >= 2, a foreign error, or a status override; distinct by (error, overrides, Accept).",
-     [dict(run="^TestInjectedErrorsMapToTheirClass$", quick=700, thorough=36000, shards_thorough=10),
-      dict(run="^TestRedirectAndChallengeHandlers$", quick=300, thorough=18000, shards_thorough=6)],
+     [dict(run="^TestInjectedErrorsMapToTheirClass$", quick=2500, thorough=36000, shards_thorough=10),
+      dict(run="^TestRedirectAndChallengeHandlers$", quick=1500, thorough=18000, shards_thorough=6)],
      ["values mixing several heimdall kinds: only (1), (3), (4) are asserted", "an Accept header admitting no supported type is don't-care",
       "generated Accept headers avoid overlapping ranges with conflicting weights (library-specific tie breaking)"],
      level="Randomised generated search over error values x overrides x Accept headers on the three assembled services with a "
@@ -247,13 +247,13 @@ prop("C10", "c10",
      "<= configured TTL; a configured TTL of 0 produces no Set and both requests reach the remote; a response whose RFC 7234 "
      "freshness (independent calculator) is zero/negative or which is not storable is fetched again. Non-trivial: lifetime "
      "within 40 s of now or a configured TTL; distinct by (mechanism, TTL option, lifetime).",
-     [dict(run="^TestIntrospectionResultCaching$", quick=300, thorough=30000, shards_thorough=3),
-      dict(run="^TestGenericAuthenticatorCaching$", quick=300, thorough=30000, shards_thorough=3),
-      dict(run="^TestVerificationKeyCaching$", quick=300, thorough=30000, shards_thorough=3),
-      dict(run="^TestJWTFinalizerCaching$", quick=100, thorough=3000, shards_thorough=1),
-      dict(run="^TestClientCredentialsTokenCaching$", quick=300, thorough=30000, shards_thorough=3),
-      dict(run="^TestHTTPResponseCaching$", quick=400, thorough=40000, shards_thorough=3),
-      dict(run="^TestConfiguredTTLBoundsSubjectHandlerCaches$", quick=300, thorough=6000, shards_thorough=1)],
+     [dict(run="^TestIntrospectionResultCaching$", quick=1500, thorough=30000, shards_thorough=3),
+      dict(run="^TestGenericAuthenticatorCaching$", quick=1500, thorough=30000, shards_thorough=3),
+      dict(run="^TestVerificationKeyCaching$", quick=1000, thorough=30000, shards_thorough=3),
+      dict(run="^TestJWTFinalizerCaching$", quick=600, thorough=3000, shards_thorough=1),
+      dict(run="^TestClientCredentialsTokenCaching$", quick=1500, thorough=30000, shards_thorough=3),
+      dict(run="^TestHTTPResponseCaching$", quick=1500, thorough=40000, shards_thorough=3),
+      dict(run="^TestConfiguredTTLBoundsSubjectHandlerCaches$", quick=1200, thorough=6000, shards_thorough=1)],
      ["expiry is checked through the TTL handed to the cache, not by waiting", "internal safety margins of the mechanisms are not asserted (only the bounds of the statement)",
       "no heuristic freshness is expected for responses without explicit expiration information"],
      level="Randomised generated search over lifetimes x TTL options per caching mechanism, observed at a recording cache and "
@@ -291,9 +291,9 @@ prop("C16", "c16",
      "reloader rewriting the key store between two stores and firing the registered change listener; every token must verify "
      "with the key published under its kid and every published set is exactly one of the two stores. The same three roles also run as logical threads under generated schedules on a scheduler-instrumented copy of jwt_signer.go (see C07). Non-trivial: custom "
      "claims name a reserved claim or >= 2 entries; distinct by setup.",
-     [dict(run="^TestIssuedTokensVerifyAndCarrySystemClaims$", quick=400, thorough=12000, shards_thorough=8),
-      dict(run="^TestTokensOfEverySignerVerifyAgainstThePublishedKeySet$", quick=200, thorough=3000, shards_thorough=4),
-      dict(run="^TestTokensHandedOutAfterAReloadVerify$", quick=300, thorough=4000, shards_thorough=4),
+     [dict(run="^TestIssuedTokensVerifyAndCarrySystemClaims$", quick=800, thorough=12000, shards_thorough=8),
+      dict(run="^TestTokensOfEverySignerVerifyAgainstThePublishedKeySet$", quick=600, thorough=3000, shards_thorough=4),
+      dict(run="^TestTokensHandedOutAfterAReloadVerify$", quick=1200, thorough=4000, shards_thorough=4),
       dict(run="^TestConcurrentIssuanceAndReload$", quick=1, thorough=1, shards_thorough=1, race=True),
       dict(run="^TestScheduledIssuanceAndReload$", quick=1500, thorough=30000, shards_thorough=4, instrument=True)],
      ["tokens served from cache across a reload are out of scope (the concurrent part uses a ttl below the caching threshold)",
@@ -315,7 +315,7 @@ prop("C07", "c07",
      "whose lookup results and applicability of changes come from fresh, unscheduled repositories; deadlock (all threads "
      "blocked), panics and data-race reports are violations. Non-trivial: a context switch while an update is in flight; "
      "distinct by (schedule trace hash, program).",
-     [dict(run="^TestScheduledHistoriesAreLinearizable$", quick=300, thorough=15000, shards_thorough=12, instrument=True),
+     [dict(run="^TestScheduledHistoriesAreLinearizable$", quick=2000, thorough=15000, shards_thorough=12, instrument=True),
       dict(run="^TestParallelHistoriesAreLinearizable$", quick=1, thorough=1, shards_thorough=2, race=True)],
      ["yield granularity is the statement of the instrumented files; everything else is atomic in engine A",
       "engine B depends on real scheduling and is not reproducible from the seed; the recorded history is the artefact"],
@@ -336,8 +336,8 @@ prop("C17", "c17",
      "goroutines under -race from the very first execution; a data race report or a behaviour that differs from the object's "
      "first observed behaviour is a violation. Every generated case is non-trivial (>= 2 variants); distinct by (mechanism, "
      "target, load order, execution order).",
-     [dict(run="^TestVariantsAreIndependentOfEachOther$", quick=250, thorough=6250, shards_thorough=10),
-      dict(run="^TestExecutionDoesNotChangeMechanisms$", quick=300, thorough=2500, shards_thorough=4),
+     [dict(run="^TestVariantsAreIndependentOfEachOther$", quick=900, thorough=6250, shards_thorough=10),
+      dict(run="^TestExecutionDoesNotChangeMechanisms$", quick=900, thorough=2500, shards_thorough=4),
       dict(run="^TestConcurrentExecutionIsRaceFree$", quick=1, thorough=1, shards_thorough=2, race=True)],
      ["the remote side is a deterministic function of what it receives", "mechanism caches are off (no cache in the request context) so executions do not influence each other through the cache"],
      level="Randomised generated search over creation/execution orders with a metamorphic oracle, plus a race-detector stress "
@@ -360,11 +360,11 @@ prop("C18", "c18",
      "model's (each content change applied exactly once, unchanged content never), and the rule set versions the repository "
      "really matches equal the model. Non-trivial: the history contains an empty / invalid / rejected version, a "
      "disappearance, a duplicate, delayed or out-of-order notification; distinct by history.",
-     [dict(run="^TestFileSystemProviderConverges$", quick=300, thorough=3000, shards_thorough=4),
+     [dict(run="^TestFileSystemProviderConverges$", quick=1000, thorough=3000, shards_thorough=4),
       dict(run="^TestHTTPEndpointProviderConverges$", quick=300, thorough=3000, shards_thorough=4),
-      dict(run="^TestCloudBlobProviderConverges$", quick=200, thorough=2000, shards_thorough=4),
-      dict(run="^TestCloudBlobSingleObjectConverges$", quick=200, thorough=2000, shards_thorough=2),
-      dict(run="^TestKubernetesProviderConverges$", quick=300, thorough=3000, shards_thorough=4)],
+      dict(run="^TestCloudBlobProviderConverges$", quick=800, thorough=2000, shards_thorough=4),
+      dict(run="^TestCloudBlobSingleObjectConverges$", quick=800, thorough=2000, shards_thorough=2),
+      dict(run="^TestKubernetesProviderConverges$", quick=1500, thorough=3000, shards_thorough=4)],
      ["client-go's informer machinery, real inotify timing, real S3/GCS/Azure and gocron scheduling are outside the harness: "
       "events and polls are delivered synchronously", "cloud blob: a poll that meets an undecodable or rejected object is don't-care for the other objects of that poll",
       "network failures keep the previous version (documented for the http_endpoint and cloud_blob providers)"],
@@ -391,9 +391,9 @@ prop("C19", "c19",
      [dict(run="^TestMalformedRuleSetsAreRejectedNotFatal$", quick=3000, thorough=15000, shards_thorough=8),
       dict(run="^TestKeyStoreReloadsAreRejectedNotFatal$", quick=1500, thorough=6000, shards_thorough=4),
       dict(run="^TestKeyStoreTruncationExhaustive$", quick=1, thorough=1, shards_thorough=1),
-      dict(run="^TestHostileRemoteResponsesYieldErrorResponses$", quick=2000, thorough=8000, shards_thorough=6),
+      dict(run="^TestHostileRemoteResponsesYieldErrorResponses$", quick=4000, thorough=8000, shards_thorough=6),
       dict(run="^TestRawRequestsDoNotStopTheService$", quick=150, thorough=1500, shards_thorough=2),
-      dict(run="^TestTokenEndpointAnswersToTheRuleProvider$", quick=300, thorough=3000, shards_thorough=2),
+      dict(run="^TestTokenEndpointAnswersToTheRuleProvider$", quick=1200, thorough=3000, shards_thorough=2),
       dict(run="^FuzzRuleSetBytes$", fuzz=True, quick=1, thorough=1, shards_thorough=1, fuzztime_thorough=240, fuzz_workers=6),
       dict(run="^FuzzKeyStoreBytes$", fuzz=True, quick=1, thorough=1, shards_thorough=1, fuzztime_thorough=240, fuzz_workers=4),
       dict(run="^FuzzRemoteResponseBytes$", fuzz=True, quick=1, thorough=1, shards_thorough=1, fuzztime_thorough=240, fuzz_workers=4)],
